@@ -105,15 +105,20 @@ func ruleUTF7Chunking(c *Ctx, ra, rb, rc string) {
 				lastCheck = nil
 				for cur != nil {
 					par := parents[cur]
-					if blk, ok := par.(*ast.BlockStmt); ok {
-						for _, s := range blk.List {
-							if s == cur {
-								break
-							}
-							if s.Pos() < cur.Pos() && isDstCheck(s) {
-								lastCheck = s
-								return true
-							}
+					var siblings []ast.Stmt
+					switch blk := par.(type) {
+					case *ast.BlockStmt:
+						siblings = blk.List
+					case *ast.CaseClause:
+						siblings = blk.Body
+					}
+					for _, s := range siblings {
+						if s == cur {
+							break
+						}
+						if s.Pos() < cur.Pos() && isDstCheck(s) {
+							lastCheck = s
+							return true
 						}
 					}
 					if _, isLoop := par.(*ast.ForStmt); isLoop {
